@@ -64,3 +64,65 @@ func TestC02KnownF1(t *testing.T) {
 		fmt.Println("KNOWN-GONE F-C02-1")
 	}
 }
+
+// f02bCase is the fixed minimal history of known finding F-C02-2: two v1
+// contracts expiring at height 9, the block at height 9 applied with the
+// reversed expiration order through chain.WithExpiringContractOrder (the
+// option upstream uses to pin historical orders), and a heavier sibling fork
+// that reverts that block.
+func f02bCase() kit.TreeCase {
+	form := func(pick int) kit.Intent {
+		return kit.Intent{Kind: "v1form", Who: 0, To: 1, Pick: pick, A: 1}
+	}
+	tc := kit.TreeCase{Net: kit.NetSpec{Maturity: 1, Allow: 500, ReqOff: 10, CutOff: 10}, SharedWindows: true}
+	tc.Blocks = []kit.BlockSpec{
+		{Dt: 1}, {Dt: 1},
+		{Dt: 1, Txs: []kit.Intent{form(0), form(1)}}, // height 3: A, D with window end 9
+		{Dt: 1}, {Dt: 1}, {Dt: 1}, {Dt: 1}, {Dt: 1},
+		{Dt: 1, Reorder: true}, // height 9: X, applied in the overridden order [D, A]
+		{Dt: 1, Back: 1},       // height 9: sibling Y (no override entry)
+		{Dt: 1},                // height 10: makes Y's branch heavier
+	}
+	return tc
+}
+
+// TestC02KnownF2 decides whether known finding F-C02-2 still reproduces.
+func TestC02KnownF2(t *testing.T) {
+	tr := kit.BuildTree(f02bCase())
+	for i, n := range tr.Nodes {
+		if !n.Valid() {
+			t.Fatalf("INFRA demonstrator block %d invalid: %v", i, n.Err)
+		}
+	}
+	x := tr.Nodes[8]
+	if len(tr.OrderOverride[x.ID]) != 2 {
+		t.Fatalf("INFRA demonstrator built no order override for the block at height 9: %v", tr.OrderOverride)
+	}
+	node, err := kit.NewNode(tr, "mem")
+	if err != nil {
+		t.Fatal(err)
+	}
+	defer node.Close()
+	for _, n := range tr.Nodes[:9] {
+		if err := node.Submit([]types.Block{n.Block}); err != nil {
+			t.Fatalf("INFRA demonstrator submission failed: %v", err)
+		}
+	}
+	if node.CM.Tip() != x.Index() {
+		t.Fatalf("INFRA demonstrator: tip %v, want the overridden block", node.CM.Tip())
+	}
+	for _, n := range tr.Nodes[9:] {
+		if err := node.Submit([]types.Block{n.Block}); err != nil {
+			t.Fatalf("INFRA demonstrator submission failed: %v", err)
+		}
+	}
+	tip := tr.Nodes[10]
+	if node.CM.Tip() != tip.Index() {
+		t.Fatalf("INFRA demonstrator did not reorg: tip %v", node.CM.Tip())
+	}
+	if got, want := node.CM.TipState().Elements, tip.Ledger.State.Elements; got != want {
+		fmt.Printf("KNOWN-REPRODUCED F-C02-2: after reverting a block applied in an overridden expiration order the sibling block expired the contracts in that order too: element accumulator differs from that of a node that saw only the best chain\n")
+	} else {
+		fmt.Println("KNOWN-GONE F-C02-2")
+	}
+}
